@@ -59,6 +59,75 @@ func fpEdited(id string) string {
 	return b.Src
 }
 
+// fpNearCopies returns, for one shape, one edited version per distinct topology similarity to the
+// base that a single catalogue edit reaches at or above the match threshold (first edit in
+// catalogue order per level, most similar first). They are the "near copies" a renamed function
+// competes with; the similarity is computed with the real TopologySimilarity only to CHOOSE the
+// inputs, never to judge.
+func fpNearCopies(scratch, id string) ([]string, []float64, error) {
+	b := fpBase(id)
+	var srcs []string
+	var names []string
+	fns := []string{progfam.Rename(b.Src, "F", "Base0")}
+	for i, v := range progfam.Edits(b) {
+		if v.Name != b.Name || progfam.Compiles(v.Src) != nil || strings.Contains(v.Src, ") calc(") {
+			continue
+		}
+		n := fmt.Sprintf("Edit%d", i)
+		srcs = append(srcs, v.Src)
+		names = append(names, n)
+		fns = append(fns, progfam.Rename(v.Src, "F", n))
+	}
+	text := progfam.RenderFile(fns)
+	d := filepath.Join(scratch, "near-"+id)
+	os.MkdirAll(d, 0o755)
+	path := filepath.Join(d, "near.go")
+	os.WriteFile(path, []byte(text), 0o644)
+	res, err := LoadAndFingerprint(RealFileSystem{}, path)
+	if err != nil {
+		return nil, nil, err
+	}
+	topo := map[string]*topology.FunctionTopology{}
+	for _, x := range res {
+		if fn := x.GetSSAFunction(); fn != nil {
+			topo[ShortFunctionName(x.FunctionName)] = topology.ExtractTopology(fn)
+		}
+	}
+	base := topo["Base0"]
+	if base == nil {
+		return nil, nil, fmt.Errorf("no topology for the base of %s", id)
+	}
+	seen := map[float64]bool{}
+	var out []string
+	var sims []float64
+	for i, n := range names {
+		t := topo[n]
+		if t == nil || t.FuzzyHash != base.FuzzyHash {
+			continue
+		}
+		sim := topology.TopologySimilarity(base, t)
+		if sim < models.DefaultTopologyMatchThreshold || seen[sim] {
+			continue
+		}
+		seen[sim] = true
+		out = append(out, srcs[i])
+		sims = append(sims, sim)
+	}
+	// most similar first
+	idx := make([]int, len(out))
+	for i := range idx {
+		idx[i] = i
+	}
+	sort.SliceStable(idx, func(a, b int) bool { return sims[idx[a]] > sims[idx[b]] })
+	var o2 []string
+	var s2 []float64
+	for _, i := range idx {
+		o2 = append(o2, out[i])
+		s2 = append(s2, sims[i])
+	}
+	return o2, s2, nil
+}
+
 type fpConfig struct {
 	name   string
 	shapes []string
@@ -135,11 +204,39 @@ func fpRun(t *testing.T, r *vh.Report, prop string) {
 	actions := []string{"keep", "edit", "rename", "remove"}
 	// added functions: none, an identical twin of a shape, unrelated ones, and NEAR copies of a shape
 	// ("~shape": the shape with one operator/constant edited) whose names sort before the renamed ones
-	addedPool := [][]string{{}, {"upcount"}, {"strings", "bits"}, {"~upcount"}, {"~strings", "~whileloop"}}
+	addedPool := [][]string{{}, {"upcount"}, {"strings", "bits"}}
+	// near copies: one pool entry per (shape, similarity level); "~k~shape" = k-th level of shape
+	nearSrc := map[string]string{}
+	for _, shape := range []string{"upcount", "strings"} {
+		srcs, sims, err := fpNearCopies(scratch, shape)
+		if err != nil {
+			r.Fail("near copies of %s: %v", shape, err)
+			return
+		}
+		for k, src := range srcs {
+			tag := fmt.Sprintf("~%d~%s", k, shape)
+			nearSrc[tag] = src
+			addedPool = append(addedPool, []string{tag})
+			r.Note("near copy %s: topology similarity to the base %.6f", tag, sims[k])
+		}
+		r.Max("max_near_copy_levels_per_shape", int64(len(srcs)))
+	}
 	caseIdx := 0
 	for ci, cfg := range configs {
 		for code := 0; code < 256; code++ {
 			for ai, added := range addedPool {
+				if len(added) == 1 && strings.HasPrefix(added[0], "~") {
+					// a near copy only competes with renamed functions: codes without a rename add nothing
+					hasRename := false
+					for k, cc := 0, code; k < len(cfg.shapes); k, cc = k+1, cc/4 {
+						if cc%4 == 2 {
+							hasRename = true
+						}
+					}
+					if !hasRename {
+						continue
+					}
+				}
 				caseIdx++
 				if !vh.Mine(caseIdx) || r.Expired() {
 					continue
@@ -167,7 +264,7 @@ func fpRun(t *testing.T, r *vh.Report, prop string) {
 				for zi, shape := range added {
 					nn := fmt.Sprintf("Extra%d", zi)
 					if strings.HasPrefix(shape, "~") {
-						newF = append(newF, fpFunc{name: nn, shape: shape, role: "added", src: progfam.Rename(fpEdited(shape[1:]), "F", nn)})
+						newF = append(newF, fpFunc{name: nn, shape: shape, role: "added", src: progfam.Rename(nearSrc[shape], "F", nn)})
 						continue
 					}
 					newF = append(newF, fpFunc{name: nn, shape: shape, role: "added", src: progfam.Rename(fpBase(shape).Src, "F", nn)})
